@@ -126,6 +126,13 @@ def build(desc):
         cand = [it for it in list.__iter__(section) if it.original_mnemonic.upper() not in keep]
         if cand:
             cand[pos % len(cand)].mnemonic = name
+    # fields assigned after the build are stored verbatim (no constructor normalisation applies to them)
+    for sec, pos, field, text in desc.get("assign", []):
+        section = las.sections.get(sec)
+        if section is None or isinstance(section, str) or len(section) == 0:
+            continue
+        items = list(list.__iter__(section))
+        setattr(items[pos % len(items)], field, text)
     # deletions after the build: what is left keeps its (now stale) duplicate suffixes, e.g. GR:2, GR:3
     for sec, pos in desc.get("drop", []):
         section = las.sections.get(sec)
@@ -229,7 +236,7 @@ def disambiguated(las):
 
 def summary(desc, limit=900):
     parts = []
-    for key in ("transforms", "set", "version", "well", "params", "custom", "customtext", "index_unit", "drop", "rename"):
+    for key in ("transforms", "set", "version", "well", "params", "custom", "customtext", "index_unit", "drop", "rename", "assign"):
         if desc.get(key):
             parts.append("%s=%r" % (key, desc[key]))
     for c in desc.get("curves", []):
@@ -406,6 +413,10 @@ def las_desc(draw, inf=False, max_items=4, max_curves=5, max_rows=6, p_text=4, p
     if drops and roll(draw, 4) == 0:
         d["rename"] = [[draw(st.sampled_from(["Well", "Parameter", "Curves"])), draw(st.integers(0, 5)),
                         draw(st.sampled_from([" GR ", "GR  ", "  ", "\t", " x", "NEW", "gr"]))]]
+    if drops and roll(draw, 4) == 0:
+        d["assign"] = [[draw(st.sampled_from(["Well", "Parameter", "Curves"])), draw(st.integers(0, 5)),
+                        draw(st.sampled_from(["unit", "unit", "descr"])),
+                        draw(st.sampled_from(["[gAPI]", "(v/v)", " m ", "(x]", "  padded  ", ""]))]]
     if drops and roll(draw, 3) == 0:
         d["drop"] = [[draw(st.sampled_from(["Well", "Parameter", "Curves", "Version"])), draw(st.integers(0, 5))]
                      for _ in range(draw(st.integers(1, 2)))]
